@@ -202,7 +202,7 @@ open Ragc.EndToEnd
 /-- **When `createModel` answers**, exactly: the inputs are `admissible` and the reference writer
 answers on `inputOf files`. Every other case is `none` — `createOutcome` says which: an error exit
 (`noInputs`, `emptyName`, `unsortedSingleFile`) or outside the composed model (`badPath`,
-`emptySampleName`, `duplicateContig`, `writer`). -/
+`emptySampleName`, `writer`; `duplicateContig` is an error exit since repair D13). -/
 theorem create_answers_iff (cfg : Ragc.Writer.Cfg) (files : List InFile) (dec : Ragc.Writer.Decisions)
     (zc : Nat → List Nat → List Nat) (bs : List Nat) :
     createModel cfg files dec zc = some bs ↔
@@ -627,14 +627,13 @@ missing inside the models. What remains between it and the binary:
    decisions is the real file byte for byte — is checked per generated archive by the C02 harness,
    not proved. `extractModel` uses the INDEPENDENT decoder `Agc3.decodeArchive`; that ragc's own
    reader returns the same bases is the C02/C01 harness comparison (and C08 for the reader's state).
-2. **Duplicate records** (`Outside.duplicateContig`): two records with a base under the same
-   (sample, name) are outside the composition — `createModel` is `none` there although the real
-   `create` exits 0. Reading the code (`push`, agc_compressor.rs 1553-1559, ignores the `Ok(false)`
-   of `register_sample_contig`; C++ AGC skips the record with a message): the second contig is
-   compressed as well and its segments are placed over those of the first under the one catalogue
-   entry, so the archive lists ONE contig and at least one of the two records cannot be extracted —
-   a candidate violation of C16's last sentence, to be replayed on the code (witness: one file
-   `>a\nACGT…\n>a\nTTTT…\n`, or two files with the same stem and the same header). NOT run here.
+2. **Duplicate records** (`Failure.duplicateContig`): two records with a base under the same
+   (sample, name). Found while composing this theorem (the composition had no place for them),
+   replayed on the real code and confirmed as a genuine defect: `push` ignored the `Ok(false)` of
+   `register_sample_contig`, the second contig was compressed as well and its segments were placed
+   over those of the first under the one catalogue entry — `ragc create` exited 0 and
+   `>a` came back as a 4685-base chimera of a 3000- and a 1700-base record. Repaired in /repo
+   (3f11240: the second record is refused, create fails); the model now classes it as an error exit.
 3. **Empty sample name** (`Outside.emptySampleName`: a file called `.fa`, `.fa.gz`, …):
    `register_sample_contig` substitutes the first word of the contig name; not composed.
 4. **Names** are bytes 1..127 (inside `DecisionsOK`, from C03); invalid UTF-8 / non-ASCII white
